@@ -180,3 +180,47 @@ func H_C12_buffers() {
 	_ = b
 	vReach("end")
 }
+
+// rule tokens handed out earlier stay intact when later calls split other quoted rule text
+func H_C12_tokens() {
+	vPoolMode([]string{"lifo", "adversarial"}[vndChoice("pool", 2)])
+	q := vndString("q", 2)
+	vAssume(vNoByte(q, '\''))
+	t1 := ValidNamesSplit("r1,'x," + q + "',r2|m1")
+	c1 := []string{}
+	for _, t := range t1 {
+		c1 = append(c1, string([]byte(t)))
+	}
+	t2 := ValidNamesSplit("'p,q',in=('a,b'/c)")
+	_ = Var("9", "re='^[0-9]$'|d", "required")
+	t3 := ValidNamesSplit("'"+q+"',zz", ',')
+	vAssert(len(t1) == 3 && t1[0] == "r1" && t1[1] == "'x,"+q+"'" && t1[2] == "r2|m1", "C12 tokens of the first split keep their text")
+	vAssert(len(t1) == len(c1) && t1[0] == c1[0] && t1[1] == c1[1] && t1[2] == c1[2], "C12 tokens of the first split equal their deep copies")
+	vAssert(len(t2) == 2 && t2[0] == "'p,q'" && t2[1] == "in=('a,b'/c)", "C12 tokens of the second split keep their text")
+	vAssert(len(t3) == 2 && t3[0] == "'"+q+"'" && t3[1] == "zz", "C12 tokens of the third split")
+	vReach("end")
+}
+
+// a group rule token retained until the end of the call, with quoted rules on later fields
+type vC12G struct {
+	A string `valid:"either=1"`
+	B string `valid:"'either=1'"`
+	C string `valid:"re='^x',either=1"`
+	D string `valid:"in=('u,v'/w),required|'need, D'"`
+}
+
+func H_C12_group_token() {
+	vPoolMode([]string{"lifo", "adversarial"}[vndChoice("pool", 2)])
+	o := &vC12G{A: vStr("A"), C: vStr("C"), D: "w"}
+	err := Struct(o)
+	// B's rule text is a quoted unknown rule; A and C form the either group
+	want := "\"vC12G.B\" valid \"'either\" is not exist, You can call SetValidFn" + ErrEndFlag
+	if o.C != "" && o.C != "x" {
+		want += "\"vC12G.C\" input \"" + o.C + "\", explain: regex match is failed, pattern: ^x" + ErrEndFlag
+	}
+	if o.A == "" && o.C == "" {
+		want += "\"vC12G.A\", \"vC12G.C\" explain: they shouldn't all be empty" + ErrEndFlag
+	}
+	vAssert(err != nil && err.Error()+ErrEndFlag == want, "C12 group rule retained across later quoted splits")
+	vReach("end")
+}
